@@ -18,6 +18,8 @@
 (*  "lhc"        LatinHypercube: Perm (Fisher-Yates as math/rand/v2 documents *)
 (*               it) then one variate per stratum                             *)
 (*  "simple"     Importance weights, IID batches, SampleUniformWeighted        *)
+(*  "halton"     Owen-scrambled Halton points: stratification in every base    *)
+(*  "wor"        WithoutReplacement: both algorithms over scripted choices     *)
 (*                                                                            *)
 (* R1: counting / structural invariants below, over every script in the bound *)
 (* R2: every complete script is printed with the expected batch / counters.   *)
@@ -150,14 +152,78 @@ SOut == [proto |-> "simple", n |-> s.n, es |-> s.es,
          \* IIDer / IID: batch = successive Rand() ; SampleUniformWeighted: the sampler's batch, weights all 1
          batch |-> [i \in 1 .. s.n |-> i]]
 
+(********************************* Halton ************************************)
+\* samplemv.Halton{Kind: Owen}: coordinate j of sample i is the radical inverse of i in base b = prime(j) with every digit
+\* position r scrambled by its own uniformly drawn permutation p_r of 0..b-1:  x = Sum_r p_r[digit_r(i)] b^-(r+1).
+\* Whatever the permutations are, the first K digits of 0..b^K-1 run through all combinations, so for every k with b^k | n
+\* each stratum [m/b^k, (m+1)/b^k) receives exactly n/b^k of the samples 0..n-1 (the digits beyond the k-th only move a
+\* point inside its stratum).  R1 checks this on the digit model for every tuple of permutations; R2 prints (n, d) with
+\* the strata counts, which must hold for the real sampler under any seeded source.
+HBase(j) == <<2, 3, 5>>[j]
+HDigits(b) == CASE b = 2 -> 4 [] b = 3 -> 2 [] b = 5 -> 1
+Digit(i, b, r) == (i \div Pow(b, r)) % b                                  \* r = 0 is the least significant digit of i
+PermsOf(b) == {p \in [0 .. (b - 1) -> 0 .. (b - 1)] : \A x, y \in 0 .. (b - 1) : p[x] = p[y] => x = y}
+\* the scrambled first K digits as an integer in 0 .. b^K - 1 (digit r of i has weight b^(K-1-r))
+HVal(i, b, K, ps) == LET RECURSIVE Go(_)
+                         Go(r) == IF r = K THEN 0 ELSE ps[r + 1][Digit(i, b, r)] * Pow(b, K - 1 - r) + Go(r + 1)
+                     IN Go(0)
+HStrataOK(n, b, K, ps) ==
+    \A k \in 0 .. K : (n % Pow(b, k) = 0) =>
+        \A m \in 0 .. (Pow(b, k) - 1) :
+            Cardinality({i \in 0 .. (n - 1) : HVal(i, b, K, ps) \div Pow(b, K - k) = m}) = n \div Pow(b, k)
+HInit == s \in [n : {1, 2, 3, 4, 5, 6, 8, 9, 12, 16, 18, 25, 27, 30, 36, 64, 100} \cap 1 .. (MaxB * 25), d : 1 .. 3]
+HInv == \A j \in 1 .. s.d : LET b == HBase(j)
+                                K == HDigits(b) IN
+          (s.n <= Pow(b, K)) => \A ps \in [1 .. K -> PermsOf(b)] : HStrataOK(s.n, b, K, ps)
+\* levels printed per dimension: every k >= 1 with b^k | n
+RECURSIVE HLevels(_, _, _)
+HLevels(n, b, k) == IF n % Pow(b, k) # 0 THEN <<>> ELSE << [cells |-> Pow(b, k), each |-> n \div Pow(b, k)] >> \o HLevels(n, b, k + 1)
+HOut == [proto |-> "halton", n |-> s.n, d |-> s.d, dims |-> [j \in 1 .. s.d |-> [base |-> HBase(j), levels |-> HLevels(s.n, HBase(j), 1)]]]
+
+(*************************** WithoutReplacement ******************************)
+\* sampleuv.WithoutReplacement(idxs, n, src), k = len(idxs): k distinct integers of 0..n-1, every ordered k-tuple equally
+\* likely.  The two algorithms of the implementation, over scripted choices:
+\*   n < k^2    the first k entries of rand.Perm(n) (Fisher-Yates, choices j_i <= i as in the Latin hypercube part)
+\*   otherwise  for i = 0..k-1 draw r uniform in 0..n-i-1 and take the r-th integer not used so far
+\* R1: every script gives k distinct values in range; the direct method is a bijection between scripts and ordered
+\* k-tuples, the permutation method hits every ordered k-tuple (n-k)! times: both are uniform.
+RECURSIVE Fact(_)
+Fact(n) == IF n <= 1 THEN 1 ELSE n * Fact(n - 1)
+\* the r-th (0-based) element of 0..n-1 that is not in used
+RECURSIVE NthFree(_, _, _)
+NthFree(r, used, c) == IF c \in used THEN NthFree(r, used, c + 1) ELSE IF r = 0 THEN c ELSE NthFree(r - 1, used, c + 1)
+RECURSIVE Direct(_, _, _)
+Direct(rs, used, i) == IF i > Len(rs) THEN <<>> ELSE LET v == NthFree(rs[i], used, 0) IN <<v>> \o Direct(rs, used \cup {v}, i + 1)
+DirectScripts(n, k) == {rs \in [1 .. k -> 0 .. (n - 1)] : \A i \in 1 .. k : rs[i] <= n - i}
+UsesPerm(n, k) == n < k * k
+WInit == s \in UNION {[n : {n}, k : 1 .. n] : n \in 1 .. (MaxB + 1)}
+WTuples == IF UsesPerm(s.n, s.k) THEN {<<js, [i \in 1 .. s.k |-> Perm(s.n, js)[i]]>> : js \in JChoices(s.n)}
+           ELSE {<<rs, Direct(rs, {}, 1)>> : rs \in DirectScripts(s.n, s.k)}
+WInv == LET ts == WTuples
+            nTuples == Fact(s.n) \div Fact(s.n - s.k)
+        IN /\ \A t \in ts : /\ Len(t[2]) = s.k /\ Range(t[2]) \subseteq 0 .. (s.n - 1)
+                            /\ Cardinality(Range(t[2])) = s.k
+           /\ Cardinality({t[2] : t \in ts}) = nTuples                                 \* every ordered k-tuple occurs
+           /\ \A t \in ts : Cardinality({u \in ts : u[2] = t[2]}) * nTuples = Cardinality(ts)   \* equally often
+WOut == LET ts == WTuples IN
+        [proto |-> "wor", n |-> s.n, k |-> s.k, perm |-> UsesPerm(s.n, s.k),
+         \* a script = the uniform choices (m, j): "an integer below m was requested and j was delivered", and the result
+         scripts |-> {[choices |-> IF UsesPerm(s.n, s.k) THEN [m \in 1 .. (s.n - 1) |-> <<s.n - m + 1, t[1][s.n - m]>>]
+                                            ELSE [i \in 1 .. s.k |-> <<s.n - i + 1, t[1][i]>>],
+                                idxs |-> t[2]] : t \in ts}]
+
 (*****************************************************************************)
 Init == CASE Proto = "rejection" -> RInit [] Proto = "mh" -> MInit [] Proto = "lhc" -> LInit [] Proto = "simple" -> SInit
-Next == CASE Proto = "rejection" -> RNext [] Proto = "mh" -> MNext [] Proto = "lhc" -> UNCHANGED s [] Proto = "simple" -> UNCHANGED s
+          [] Proto = "halton" -> HInit [] Proto = "wor" -> WInit
+Next == CASE Proto = "rejection" -> RNext [] Proto = "mh" -> MNext [] OTHER -> UNCHANGED s
 Spec == Init /\ [][Next]_vars
 Inv == CASE Proto = "rejection" -> RInv [] Proto = "mh" -> MInv [] Proto = "lhc" -> LInv [] Proto = "simple" -> SInv
+        [] Proto = "halton" -> HInv [] Proto = "wor" -> WInv
 EmitScript ==
     Emit => CASE Proto = "rejection" -> (RDone => PrintT(ToJson(ROut)))
               [] Proto = "mh"        -> (MDone => PrintT(ToJson(MOut)))
               [] Proto = "lhc"       -> PrintT(ToJson(LOut))
               [] Proto = "simple"    -> PrintT(ToJson(SOut))
+              [] Proto = "halton"    -> PrintT(ToJson(HOut))
+              [] Proto = "wor"       -> PrintT(ToJson(WOut))
 =============================================================================
